@@ -44,7 +44,8 @@ SMALL = [
     (None, "sel", "select case (i)", "end select sel\n"),
     (None, None, "z = 'a;b' // '!'", ""),
 ]
-BREAKS = ["", "&\n", "&\n&", "& ! c\n  &", "&\n! full\n", "&\n\n   &", "  &  \n   "]
+# a leading '<' means: no blank between the preceding token and the '&'
+BREAKS = ["", "&\n", "&\n&", "& ! c\n  &", "&\n! full\n", "&\n\n   &", "  &  \n   ", "<&\n"]
 
 
 def small_text(k, choice, strsplit=None, semi=None):
@@ -66,13 +67,24 @@ def small_text(k, choice, strsplit=None, semi=None):
         out += t
         if i < len(alltoks) - 1:
             br = choice[i] if choice else ""
-            out += (" " + br) if br else " "
+            if br.startswith("<"):
+                a, b = t[-1:], alltoks[i + 1][:1]
+                word = lambda ch: ch.isalnum() or ch in "_.'\""  # noqa: E731
+                if word(a) and word(b):
+                    out += br[1:-1] + "\n "      # the next line supplies the separating blank
+                else:
+                    out += br[1:]
+            else:
+                out += (" " + br) if br else " "
     spec = closer == "@spec"
     other = "integer :: vf_%s" if spec else "vf_%s = 0"
     if semi in ("pre", "both"):
         out = (other % "p") + " ; " + out
     if semi in ("post", "both"):
         out = out + "; " + (other % "q")
+    if semi == "empty":
+        # consecutive ';' (with or without blanks between them) count as one
+        out = (other % "p") + " ; ; " + out + ";; " + (other % "q") + " ;"
     if semi == "ref":
         out = (other % "p") + "\n" + out + "\n" + (other % "q")
     elif semi == "refpre":
@@ -100,8 +112,10 @@ def small_layouts(k):
                 c = tuple(b if j == i else 0 for j in range(n))
                 seen.add(c)
                 out.append((c, None))
-        while len(out) < 2500:
-            c = tuple(r.choice([0, 0, 0, 1, 2, 3, 4, 5, 6]) for _ in range(n))
+        pool = [0, 0, 0] + list(range(1, len(BREAKS)))
+        target = min(2500, len(BREAKS) ** n)
+        while len(out) < target:
+            c = tuple(r.choice(pool) for _ in range(n))
             if c not in seen:
                 seen.add(c)
                 out.append((c, None))
@@ -116,10 +130,10 @@ def small_layouts(k):
                     out.append((None, (pre + i, p, lead)))
     # ';' joins: the statement (with its label / construct name) before, after and between other statements,
     # alone and combined with every single break
-    for semi in ("pre", "post", "both"):
+    for semi in ("pre", "post", "both", "empty"):
         out.append((tuple([0] * n), None, semi))
         for i in range(n):
-            for b in (1, 2, 3):
+            for b in (1, 2, 3, 7):
                 out.append((tuple(b if j == i else 0 for j in range(n)), None, semi))
     return out
 
@@ -211,7 +225,7 @@ def check(payload):
             k0, c, ss, semi = items[j]
             k = (k0, semi)
             if k not in refs:
-                rt, _ = small_text(k0, None, None, {None: None, "pre": "refpre", "post": "refpost", "both": "ref"}[semi])
+                rt, _ = small_text(k0, None, None, {None: None, "pre": "refpre", "post": "refpost", "both": "ref", "empty": "ref"}[semi])
                 refs[k] = (parse_shape(rt, "f2003")[0], rt)
             choice = [BREAKS[x] for x in c] if c is not None else None
             text, _ = small_text(k0, choice, ss, semi)
